@@ -11,6 +11,35 @@ from nucs.problems.problem import Problem
 from nucs.solvers.backtrack_solver import BacktrackSolver
 
 
+def _var_heuristic_factory(from_the_end):
+    """Two heuristics from ONE factory (same module, same qualified name, different behaviour)."""
+    from nucs.constants import MAX, MIN
+
+    def choose(params, decision_domains, shr_domains_stack, stacks_top):
+        top = stacks_top[0]
+        n = len(decision_domains)
+        for k in range(n):
+            dom_idx = decision_domains[n - 1 - k] if from_the_end else decision_domains[k]
+            if shr_domains_stack[top, dom_idx, MIN] < shr_domains_stack[top, dom_idx, MAX]:
+                return dom_idx
+        return -1
+
+    return choose
+
+
+CUSTOM = {}
+
+
+def custom_first_heuristic():
+    """Registers (once per process) a 'last non-instantiated' and then a 'first non-instantiated' heuristic built by the
+    same factory; returns the index of the second, which must behave exactly like the built-in first_not_instantiated."""
+    if "first" not in CUSTOM:
+        from numba import njit
+        CUSTOM["last"] = hh.register_var_heuristic(njit(_var_heuristic_factory(True)))
+        CUSTOM["first"] = hh.register_var_heuristic(njit(_var_heuristic_factory(False)))
+    return CUSTOM["first"]
+
+
 def template(t):
     if t == 1:
         from nucs.examples.queens.queens_problem import QueensProblem
@@ -43,6 +72,8 @@ def config(c, prob):
         cost = [[1 + (3 * d + 2 * v) % 4 for v in range(width)] for d in range(nd)]
         return dict(var_heuristic_idx=hh.VAR_HEURISTIC_MAX_REGRET, var_heuristic_params=cost,
                     dom_heuristic_idx=hh.DOM_HEURISTIC_MIN_COST, dom_heuristic_params=cost)
+    if c == 4:   # a custom registered clone of the default variable heuristic: same results as configuration 1
+        return dict(var_heuristic_idx=custom_first_heuristic())
     raise ValueError(c)
 
 
